@@ -53,7 +53,15 @@ CONSTANTS
   AnyForkRemote    \* [FALSE] BindAny forks when the target is not local
 
 VARIABLES
-  cfg,       \* the binding: [mode, states, multi, tmulti, flat, local, addonly, slow, addNames, remNames]
+  cfg,       \* the bindings: [mode, states, multi, tmulti, flat, local, addonly, slow, pipes]
+             \* pipes = set of [b, s, add, rem]: binding call b (one HandlersBind of the
+             \* source) pipes source state s: FooState adds `add`, FooEnd removes `rem`.
+             \* SEVERAL binding calls of one kind between the same two machines are
+             \* allowed (two BindMany calls with equally long lists, one source state
+             \* bound into two target states): machine.go bindHandlers APPENDS a binding
+             \* whatever its id is (the ids pipes.go generates are not unique), every
+             \* binding's handlers run.  add = {Exception, t} for a target state
+             \* named Err* (pipes.go add()), rem = {t} ALWAYS (remove()).
   src,       \* [piped source state -> tick]; odd = active
   srcPend,   \* pipe handler invocations of the running source transition still to run
   tgt,       \* set of active target states
@@ -86,14 +94,15 @@ SrcStep(c, s_, op, S) ==
                 ELSE s_[s]]
   IN  [src |-> nxt, enters |-> enters, exits |-> exits]
 
-(* final handlers a pipe bound, for a transition with these enters / exits    *)
+(* final handlers the pipes bound, for a transition with these enters / exits: *)
+(* one per PIPE (binding call x source state), not one per source state        *)
 Handlers(c, enters, exits, after, args) ==
   IF c.mode = "any"
-  THEN {[op |-> "set", st |-> "Any", sts |-> after, args |-> args]}
-  ELSE {[op |-> "remove", st |-> s, sts |-> c.remNames[s], args |-> args] :
-           s \in IF c.addonly THEN {} ELSE exits \cap c.states}
-       \cup {[op |-> "add", st |-> s, sts |-> c.addNames[s], args |-> args] :
-           s \in enters \cap c.states}
+  THEN {[op |-> "set", st |-> "Any", b |-> 1, sts |-> after, args |-> args]}
+  ELSE {[op |-> "remove", st |-> p.s, b |-> p.b, sts |-> p.rem, args |-> args] :
+           p \in {q \in c.pipes : ~c.addonly /\ q.s \in exits}}
+       \cup {[op |-> "add", st |-> p.s, b |-> p.b, sts |-> p.add, args |-> args] :
+           p \in {q \in c.pipes : q.s \in enters}}
 
 HName(h) == IF h.op = "set" THEN "AnyState"
             ELSE IF h.op = "add" THEN h.st \o "State" ELSE h.st \o "End"
@@ -208,10 +217,11 @@ Quiescent == srcQuiet /\ inflight = {} /\ tq = <<>> /\ cur = None /\ ~running
 
 (* evaluated on any (source ticks / active set, target active set) pair: the  *)
 (* trace specification applies the same operators to the LOGGED values        *)
+(* judged per PIPE: every pipe of every binding call follows its source state  *)
 FollowsOn(c, sact, t) ==
-  \A s \in c.states :
-     /\ s \in sact => c.addNames[s] \subseteq t
-     /\ ~c.addonly => (c.remNames[s] \subseteq t => s \in sact)
+  \A p \in c.pipes :
+     /\ p.s \in sact => p.add \subseteq t
+     /\ ~c.addonly => (p.rem \subseteq t => p.s \in sact)
   \* BindErr only pipes Add (c.addonly): the weaker reading "an active source
   \* Exception implies the target error state" is taken for it
 
